@@ -127,15 +127,45 @@ func ruleR22(c *Ctx) *RuleResult {
 				} else {
 					bad = append(bad, "the heapify loop must call bubbleDownIndex(i) for i descending to 0")
 				}
-			case g.Exit.Op == "goto" && len(g.Exit.Args) == 1 && g.From != 0:
-				// entering the heapify loop: the start index must cover every internal node (>= n/2 - 1)
-				st := noEpoch(g.Exit.Args[0])
-				if !strings.Contains(st, "(/ (len ") || !strings.Contains(st, "#:2)") {
-					bad = append(bad, "the heapify loop does not start from n/2: "+trunc(st, 120))
-				} else if strings.HasPrefix(st, "(- (/ ") && !strings.HasSuffix(st, "#:1)") {
-					bad = append(bad, "the heapify loop starts below n/2-1: "+trunc(st, 120))
-				}
 			}
+		}
+		// entering the heapify loop: the start index must cover every internal node of the whole heap (>= n/2 - 1 where n is
+		// the list's size after the appends — not the number of pushed values)
+		heapCut := ""
+		for _, g := range c.GC(fn).GCs {
+			if containsStr(effCallees(g), "bubbleDownIndex") {
+				heapCut = itoa(g.From)
+			}
+		}
+		nenter := 0
+		for _, g := range c.GC(fn).GCs {
+			if heapCut == "" || g.Exit.Op != "goto" || g.Exit.Leaf != heapCut || itoa(g.From) == heapCut || len(g.Exit.Args) != 1 {
+				continue
+			}
+			nenter++
+			stT := g.Exit.Args[0]
+			st := noEpoch(stT)
+			var half *Term
+			stT.any(func(t *Term) bool {
+				if t.Op == "/" && len(t.Args) == 2 && t.Args[1].String() == "#:2" {
+					half = t
+				}
+				return false
+			})
+			switch {
+			case half == nil:
+				bad = append(bad, "the heapify loop does not start from n/2: "+trunc(st, 120))
+			case !hasField(half.Args[0], "list") || half.Args[0].any(func(t *Term) bool { return t.Op == "p" && t.Leaf != "0" }):
+				bad = append(bad, "the heapify loop starts from half of something other than the heap's own size (every internal node of the whole heap must be sifted): "+trunc(st, 160))
+			case strings.HasPrefix(st, "(- (/ ") && !strings.HasSuffix(st, "#:1)"):
+				bad = append(bad, "the heapify loop starts below n/2-1: "+trunc(st, 120))
+			case g.From == 0 && !containsStr(effCallees(g), "Add"):
+				// entered straight from the entry: the appends must already have happened on this path
+				bad = append(bad, "the heapify loop is entered without appending the values first")
+			}
+		}
+		if heapCut != "" && nenter == 0 {
+			bad = append(bad, "no path enters the heapify loop")
 		}
 		if !single || !bulkAdd || !heapify {
 			bad = append(bad, fmt.Sprintf("expected single-push, bulk-append and heapify paths, found %v/%v/%v", single, bulkAdd, heapify))
